@@ -1,6 +1,11 @@
 #!/bin/sh
-# Builds the driver from files on disk only (offline).
+# Builds the driver and the instrumenter from files on disk only (offline)
+# and warms the build cache for the current /repo tree.
 set -e
 cd "$(dirname "$0")"
-export GOFLAGS=-mod=mod GOPROXY=off GOSUMDB=off GOTOOLCHAIN=local
-true
+export GOFLAGS=-mod=mod GOPROXY=off GOSUMDB=off GOTOOLCHAIN=local CGO_ENABLED=1
+GO=/opt/veriftools/go1.26.8/bin/go
+mkdir -p bin
+(cd driver && $GO build -o ../check .)
+(cd simgo && PATH=/opt/veriftools/go1.26.8/bin:$PATH $GO build -o ../bin/simgo .)
+./check build
